@@ -4,6 +4,9 @@ Function-level theorems about `Model/Station.lean`, for every input and every ap
 -/
 import ProfiVerif.Model.Station
 import ProfiVerif.Lemmas.StationTrace
+import ProfiVerif.Lemmas.AppOrder
+import ProfiVerif.Lemmas.AppVisit
+import ProfiVerif.Lemmas.AppFrame
 
 namespace PV.C15
 open PV
@@ -496,5 +499,459 @@ example : ∃ w log, World.runLog { s := Station.new demoParams, apps := [[.decl
     [.setOnline, .poll 100 false [0xDC, 7, 3], .poll 100000 false [], .setOffline] = some (w, log) ∧ Matched 7 log :=
   reply_or_timeout_once _ _ (by decide) (by decide)
     (by intro s hs a ha h pdu he; simp at hs; subst hs; simp at ha; subst ha; cases he) _
+
+
+/-! ## Scheduling order over whole token visits (`ask_order`)
+
+Helper lemmas: `Lemmas/AppOrder.lean` (`walk`, `nextIdx`, `poll_walk`).  The TRUE rule of
+`apps_transmit_telegram` / `schedule_next_application` (src/fdl/active.rs) is:
+
+* after application `i` DECLINED, the next callback of the token visit is `transmit_telegram` of
+  `(i+1) % n`;
+* after application `i` SENT a telegram, `next_application` STAYS at `i`: the next callback is its
+  reply / time-out (if the telegram expected a reply), and the next `transmit_telegram` goes to `i`
+  AGAIN (not to `(i+1) % n`) — an application keeps the turn until it declines;
+* `set_offline` resets the turn to application 0 (`*self = Self::new(..)`), so the rule is stated per
+  token visit (and per poll at every step of every history). -/
+
+/-- A call sequence that stays within one token hold: at the start of every call the station is in
+`UseToken` or `AwaitDataResponse`, and nobody calls `set_offline`. -/
+def VisitRun : World → List ApiCall → Prop
+  | _, [] => True
+  | w, a :: rest => Holding w.s ∧ a ≠ .setOffline ∧ ∀ w1 l, w.stepLog a = some (w1, l) → VisitRun w1 rest
+
+/-- `ask_order`, one API call: from a state holding the token, the callbacks of the call follow the
+turn from `next_application` before to `next_application` after. -/
+theorem ask_order_step (w w' : World) (a : ApiCall) (l : List AppCall) (hh : Holding w.s) (ha : a ≠ .setOffline)
+    (hs : w.stepLog a = some (w', l)) :
+    walk w.apps.length w.s.nextApp l = some w'.s.nextApp ∧ w'.apps.length = w.apps.length := by
+  cases a with
+  | setOnline => cases hs; exact ⟨rfl, rfl⟩
+  | setOffline => exact absurd rfl ha
+  | poll now phy arrived =>
+    simp only [World.stepLog] at hs
+    split at hs
+    · rename_i c hc
+      cases hs
+      exact poll_walk _ _ _ _ _ _ hh hc
+    · cases hs
+
+/-- **`ask_order`** (whole token visit, any start state holding the token, any polls / bytes / times /
+scripts): the complete callback log of the visit follows the turn. -/
+theorem ask_order_walk : ∀ (calls : List ApiCall) (w w' : World) (log : List AppCall), VisitRun w calls →
+    w.runLog calls = some (w', log) →
+    walk w.apps.length w.s.nextApp log = some w'.s.nextApp ∧ w'.apps.length = w.apps.length := by
+  intro calls
+  induction calls with
+  | nil => intro w w' log _ h; cases h; exact ⟨rfl, rfl⟩
+  | cons a rest ih =>
+    intro w w' log hv h
+    obtain ⟨hh, ha, hrest⟩ := hv
+    simp only [World.runLog] at h
+    split at h
+    · rename_i w1 l1 hs1
+      split at h
+      · rename_i w2 l2 hr2
+        cases h
+        obtain ⟨hw1, hl1⟩ := ask_order_step w w1 a l1 hh ha hs1
+        obtain ⟨hw2, hl2⟩ := ih w1 w' l2 (hrest w1 l1 hs1) hr2
+        rw [hl1] at hw2
+        exact ⟨by rw [walk_append _ _ _ _ _ hw1]; exact hw2, hl2.trans hl1⟩
+      · cases h
+    · cases h
+
+/-- Reading of `walk`: any two ADJACENT callbacks `r1, r2` of a log that follows the turn satisfy
+`r2.app = nextIdx n r1`, and the first callback goes to the application whose turn it is. -/
+theorem walk_adjacent (n : Nat) : ∀ (log : List AppCall) (j k : Nat), walk n j log = some k →
+    (∀ r post, log = r :: post → r.app = j) ∧
+    (∀ pre r1 r2 post, log = pre ++ r1 :: r2 :: post → r2.app = nextIdx n r1) := by
+  intro log
+  induction log with
+  | nil =>
+    intro j k _
+    exact ⟨(by intro r post h; cases h), (by intro pre r1 r2 post h; simp at h)⟩
+  | cons x rest ih =>
+    intro j k h
+    simp only [walk] at h
+    by_cases hx : x.app = j
+    · rw [if_pos hx] at h
+      obtain ⟨ih1, ih2⟩ := ih _ k h
+      refine ⟨(by intro r post he; cases he; exact hx), ?_⟩
+      intro pre r1 r2 post he
+      cases pre with
+      | nil =>
+        simp only [List.nil_append, List.cons.injEq] at he
+        obtain ⟨e1, e2⟩ := he
+        subst e1
+        exact ih1 r2 post e2
+      | cons y ys =>
+        simp only [List.cons_append, List.cons.injEq] at he
+        exact ih2 ys r1 r2 post he.2
+    · rw [if_neg hx] at h; cases h
+
+/-- **`ask_order`** in callback-log form.  Within one token visit (`VisitRun`), for every two adjacent
+callbacks of the visit's complete log:
+(a) after `transmit_telegram` of application `i` that DECLINED, the next callback is for `(i+1) % n`;
+(b) after `transmit_telegram` of application `i` that SENT, the next callback (its reply, its time-out,
+    or the next ask) is for `i` itself;
+(c) after a reply / time-out delivered to `i`, the next callback is for `i` (it is asked again);
+and the first callback of the visit goes to `next_application`. -/
+theorem ask_order (calls : List ApiCall) (w w' : World) (log : List AppCall) (hv : VisitRun w calls)
+    (hr : w.runLog calls = some (w', log)) :
+    (∀ r post, log = r :: post → r.app = w.s.nextApp) ∧
+    (∀ pre i hp r post, log = pre ++ .transmit i hp .decline :: r :: post → r.app = (i + 1) % w.apps.length) ∧
+    (∀ pre i hp hd pdu r post, log = pre ++ .transmit i hp (.send hd pdu) :: r :: post → r.app = i) ∧
+    (∀ pre i x t r post, log = pre ++ .reply i x t :: r :: post → r.app = i) ∧
+    (∀ pre i x r post, log = pre ++ .timeout i x :: r :: post → r.app = i) := by
+  obtain ⟨h1, h2⟩ := walk_adjacent _ log _ _ (ask_order_walk calls w w' log hv hr).1
+  exact ⟨h1, fun pre i hp r post he => h2 pre _ r post he, fun pre i hp hd pdu r post he => h2 pre _ r post he,
+    fun pre i x t r post he => h2 pre _ r post he, fun pre i x r post he => h2 pre _ r post he⟩
+
+/-- `ask_order` at every step of every history from a fresh station (lifted with the C05 invariant as in
+`callbacks_trace`): whatever call sequence `pre` was made before, the next call does not panic; if the
+station holds the token its callbacks follow the turn, and otherwise (the call not being a poll in
+`UseToken` / `AwaitDataResponse`) it makes no callback at all. -/
+theorem ask_order_trace (p : Params) (apps : Apps) (h1 : p.address < p.hsa) (h2 : p.hsa ≤ 126)
+    (hs : ScriptsOk apps) (pre : List ApiCall) (a : ApiCall) :
+    ∃ w w' l, World.run { s := Station.new p, apps := apps, rx := [] } pre = some w ∧ w.stepLog a = some (w', l) ∧
+      (Holding w.s → a ≠ .setOffline → walk w.apps.length w.s.nextApp l = some w'.s.nextApp) ∧
+      (¬ Holding w.s → l = []) := by
+  obtain ⟨w, w', l, hw, -, hl⟩ := reach_step p apps h1 h2 hs pre a
+  refine ⟨w, w', l, hw, hl, fun hh ha => (ask_order_step w w' a l hh ha hl).1, ?_⟩
+  intro hn
+  cases a with
+  | setOnline => cases hl; rfl
+  | setOffline => cases hl; rfl
+  | poll now phy arrived =>
+    simp only [World.stepLog] at hl
+    split at hl
+    · rename_i c hc; cases hl
+      rcases poll_calls _ _ _ _ _ _ hc with ⟨h0, -⟩ | ⟨-, hu, -, -⟩ | ⟨-, x, d, hst, -⟩
+      · exact h0
+      · exact absurd (.inl hu) hn
+      · exact absurd (.inr ⟨x, d, hst⟩) hn
+    · cases hl
+
+/-- The over-strong reading "after a SENT telegram the next ask goes to `(i+1) % n`" is FALSE of the
+model and of the source: `nextIdx` of a sent telegram is the sender itself.  Concrete witness: the poll of
+`ask_after_timeout_same_poll` (one application would not show it, so see `order_eval` below for three). -/
+theorem sender_keeps_turn (n i : Nat) (hp : Bool) (hd : Header) (pdu : Bytes) :
+    nextIdx n (.transmit i hp (.send hd pdu)) = i := rfl
+
+
+/-! ### Witness: three scripted applications, one token visit -/
+
+def holdingB (s : Station) : Bool :=
+  match s.st with
+  | .useToken .. | .awaitData .. => true
+  | _ => false
+
+theorem holding_of_b {s : Station} (h : holdingB s = true) : Holding s := by
+  unfold holdingB at h
+  cases hst : s.st <;> rw [hst] at h <;> simp at h
+  · exact .inl ⟨_, _, hst⟩
+  · exact .inr ⟨_, _, hst⟩
+
+/-- A station (TS 7) that has just received the token, turn at application 0 of three: application 0 has
+nothing to send, application 1 has one request for station 9 (and then nothing), application 2 nothing. -/
+def orderStation : Station :=
+  { (Station.new demoParams) with online := true, st := .useToken ⟨0, none⟩ false, lastBusActivity := some 0, endTokenHoldTime := 1000000 }
+def orderApps : Apps := [[], [.send (fdlStatusRequestHeader 9 7) []], []]
+def orderWorld : World := ⟨orderStation, orderApps, []⟩
+def orderCalls : List ApiCall := [.poll 1000 false [], .poll 100000 false []]
+def orderLog : List AppCall :=
+  [.transmit 0 false .decline, .transmit 1 false (.send (fdlStatusRequestHeader 9 7) []), .timeout 1 9,
+   .transmit 1 false .decline, .transmit 2 false .decline]
+
+theorem order_inv : Inv orderStation orderApps := by
+  refine ⟨by decide, by decide, TokenRing.new_ok 7 (by decide), (fun h => by cases h), ?_, ?_, ?_, ?_, ?_, ?_, (by simp [orderStation])⟩
+  · intro cur hc; simp [orderStation, Station.new, demoParams] at hc ⊢; omega
+  · intro a ha; simp [orderStation] at ha
+  · intro a ha; simp [orderStation] at ha
+  · intro _; decide
+  · intro a d h; simp [orderStation] at h
+  · intro sc hsc ans hans hd pdu he
+    simp [orderApps] at hsc
+    rcases hsc with rfl | rfl | rfl
+    · simp at hans
+    · simp at hans; subst hans; cases he; decide
+    · simp at hans
+
+set_option maxRecDepth 100000 in
+/-- The whole visit, evaluated: application 0 declines, application 1 sends, its time-out is delivered,
+application 1 is asked AGAIN (the sender keeps the turn) and declines, application 2 declines, and the
+turn is back at application 0 = `first_app`: the cycle is complete and the station passes on (here: sends
+the pending GAP poll first) — although application 0 was NOT asked again after the last sent telegram. -/
+theorem order_eval : (match orderWorld.runLog orderCalls with
+    | some (w, log) => (log, w.s.nextApp, w.s.st)
+    | none => ([], 99, .offline)) = (orderLog, 0, .awaitStatus 8) := by decide
+
+set_option maxRecDepth 100000 in
+theorem order_mid : (match orderWorld.stepLog (.poll 1000 false []) with
+    | some (w, _) => holdingB w.s
+    | none => false) = true := by decide
+
+theorem order_visit : VisitRun orderWorld orderCalls := by
+  refine ⟨.inl ⟨_, _, rfl⟩, (by intro h; cases h), ?_⟩
+  intro w1 l h
+  have hm := order_mid
+  rw [h] at hm
+  exact ⟨holding_of_b hm, (by intro h; cases h), fun _ _ _ => trivial⟩
+
+/-- Non-vacuity of `ask_order`: its hypotheses hold for the witness visit (a state satisfying the
+station invariant `order_inv`), the log is the five callbacks above, and the conclusions can be read
+off: e.g. the callback after the decline of application 0 goes to application 1, the callbacks after the
+request of application 1 (time-out, next ask) go to application 1. -/
+theorem order_witness : ∃ w' , orderWorld.runLog orderCalls = some (w', orderLog) ∧ VisitRun orderWorld orderCalls ∧
+    Inv orderWorld.s orderWorld.apps ∧ walk 3 0 orderLog = some 0 := by
+  have he := order_eval
+  cases hr : orderWorld.runLog orderCalls with
+  | none => rw [hr] at he; simp at he
+  | some x =>
+    obtain ⟨w', log⟩ := x
+    rw [hr] at he
+    simp only [Prod.mk.injEq] at he
+    refine ⟨w', by rw [he.1], order_visit, order_inv, by decide⟩
+
+example : ∀ r post pre, orderLog = pre ++ .transmit 0 false .decline :: r :: post → r.app = 1 := by
+  obtain ⟨w', hr, hv, -, -⟩ := order_witness
+  intro r post pre he
+  exact (ask_order orderCalls orderWorld w' orderLog hv hr).2.1 pre 0 false r post he
+
+/-- Against the phrasing "the visit ends only if every application was asked once SINCE THE LAST SENT
+TELEGRAM and all declined": in the witness visit the token hold ends (the station leaves `UseToken` for
+the GAP poll / token pass, the hold time being far from over) although application 0 was not asked
+after the telegram sent by application 1.  The true rule is per VISIT: `first_app` is remembered across
+sent telegrams, and the hold ends when the turn comes back to it (`cycle_ends_fair` below). -/
+theorem visit_end_not_since_last_send :
+    ∃ w' pre post hd pdu, orderWorld.runLog orderCalls = some (w', pre ++ .transmit 1 false (.send hd pdu) :: post) ∧
+      ¬ Holding w'.s ∧ (∀ hp ans, AppCall.transmit 0 hp ans ∉ post) ∧ (100000 : Int) < orderStation.endTokenHoldTime := by
+  have he := order_eval
+  cases hr : orderWorld.runLog orderCalls with
+  | none => rw [hr] at he; simp at he
+  | some x =>
+    obtain ⟨w', log⟩ := x
+    rw [hr] at he
+    simp only [Prod.mk.injEq] at he
+    refine ⟨w', [.transmit 0 false .decline], [.timeout 1 9, .transmit 1 false .decline, .transmit 2 false .decline],
+      _, _, by rw [he.1]; rfl, ?_, (by intro hp ans h; simp at h), by decide⟩
+    rintro (⟨d, fcd, h⟩ | ⟨a, d, h⟩) <;> rw [he.2.2] at h <;> cases h
+
+
+/-! ## Fairness within one token visit (`no_double_decline`, `visit_ends_fair`)
+
+Helper lemmas: `Lemmas/AppVisit.lean` (`VTurn`, `askFresh`, `cyc`, `poll_turn`).  The TRUE rules of
+`apps_transmit_telegram` / `schedule_next_application` / `do_use_token` are per token VISIT, because
+`first_app` lives in the visit's `UseTokenData` and survives sent telegrams:
+
+* an application that declined is not asked again in the same visit AT ALL — not even after another
+  application sent in between (stronger than the expected rule);
+* the token hold is ended by `do_use_token` only if the hold time is over, or there are no applications,
+  or EVERY application has declined exactly once in this visit (not "since the last sent telegram":
+  refuted by `visit_end_not_since_last_send`). -/
+
+/-! `VInv`, `Continues`, `EndReason`, `HoldRun` and the step / run lemmas `visit_step`, `visit_run` are in
+`Lemmas/AppVisit.lean` (namespace `PV.C15`). -/
+
+/-- **`no_double_decline`** (one whole token visit, any polls / bytes / times / scripts).  From the start
+of a visit (`first_app = None`, as after every token receipt / claim) and as long as the token hold
+continues: an application that declined is not asked again in this visit — whether or not another
+application sent a telegram in between — and in particular nobody declines twice. -/
+theorem no_double_decline (calls : List ApiCall) (w w' : World) (log : List AppCall) (d : UseData)
+    (hd : visitData w.s = some d) (hfirst : d.firstApp = none) (hrun : HoldRun w calls)
+    (hr : w.runLog calls = some (w', log)) :
+    (∀ pre i hp post, log = pre ++ .transmit i hp .decline :: post → ∀ hp' ans, AppCall.transmit i hp' ans ∉ post) ∧
+    (declinesOf log).Nodup := by
+  have hi : VInv w.apps.length w.s [] := ⟨d, hd, by rw [hfirst]; rfl⟩
+  obtain ⟨hf, -, d', -, hv⟩ := visit_run calls w w' log [] hi hrun hr
+  refine ⟨fun pre i hp post he => askFresh_decline pre [] log post i hp hf he, ?_⟩
+  simpa using vturn_nodup hv
+
+/-- **`visit_ends_fair`** (one whole token visit).  From the start of a visit, after any polls during
+which the hold continued, a poll that does NOT continue the hold either backs off to `ActiveIdle` (an
+inadmissible telegram arrived instead of the awaited reply — the token is not passed), or the hold time
+is over (`now ≥ end_token_hold_time` as `do_use_token` computes it), or there are no applications, or
+every application has declined in this visit — each exactly once. -/
+theorem visit_ends_fair (calls : List ApiCall) (w w1 w2 : World) (log l : List AppCall) (d : UseData)
+    (now : Int) (phy : Bool) (arr : Bytes)
+    (hd : visitData w.s = some d) (hfirst : d.firstApp = none) (hrun : HoldRun w calls)
+    (hr : w.runLog calls = some (w1, log)) (hs : w1.stepLog (.poll now phy arr) = some (w2, l))
+    (hend : ¬ Continues w1 w2 l) :
+    w2.s.st = .activeIdle none none 0 ∨
+    (∃ d1, visitData w1.s = some d1 ∧ ¬ now < (holdUpdate w1.s d1).endTokenHoldTime) ∨
+    w.apps.length = 0 ∨
+    ((∀ i, i < w.apps.length → i ∈ declinesOf (log ++ l)) ∧ (declinesOf (log ++ l)).Nodup) := by
+  have hi : VInv w.apps.length w.s [] := ⟨d, hd, by rw [hfirst]; rfl⟩
+  obtain ⟨-, hlen, hinv⟩ := visit_run calls w w1 log [] hi hrun hr
+  obtain ⟨-, -, -, hfin⟩ := visit_step w1 w2 now phy arr l _ hinv hs
+  rcases hfin hend with h | h | h | ⟨f, hf, he⟩
+  · exact .inl h
+  · exact .inr (.inl h)
+  · exact .inr (.inr (.inl (by rw [← hlen]; exact h)))
+  · right; right; right
+    rw [hlen] at hf he
+    simp only [List.nil_append] at he
+    rw [declinesOf_append, he]
+    exact ⟨fun i hi => cyc_full _ f i hf hi, cyc_nodup _ f hf _ (Nat.le_refl _)⟩
+
+/-- `no_double_decline` / `visit_ends_fair` for every history from a fresh station (lifted with the C05
+invariant): after ANY call sequence `pre`, any further calls `calls` and one more call `a` do not panic;
+and if `pre` ended at the start of a token visit and the hold continued during `calls` (polls), the
+visit's log `log` obeys `no_double_decline`, and if `a` is a poll that ends the hold, it does so for one
+of the four reasons of `visit_ends_fair`. -/
+theorem visit_trace (p : Params) (apps : Apps) (h1 : p.address < p.hsa) (h2 : p.hsa ≤ 126)
+    (hs : ScriptsOk apps) (pre calls : List ApiCall) (a : ApiCall) :
+    ∃ w w1 log w2 l, World.run { s := Station.new p, apps := apps, rx := [] } pre = some w ∧
+      w.runLog calls = some (w1, log) ∧ w1.stepLog a = some (w2, l) ∧
+      (∀ d, visitData w.s = some d → d.firstApp = none → HoldRun w calls →
+        ((∀ pre' i hp post, log = pre' ++ .transmit i hp .decline :: post → ∀ hp' ans, AppCall.transmit i hp' ans ∉ post) ∧
+         (declinesOf log).Nodup) ∧
+        (∀ now phy arr, a = .poll now phy arr → ¬ Continues w1 w2 l →
+          w2.s.st = .activeIdle none none 0 ∨
+          (∃ d1, visitData w1.s = some d1 ∧ ¬ now < (holdUpdate w1.s d1).endTokenHoldTime) ∨
+          w.apps.length = 0 ∨
+          ((∀ i, i < w.apps.length → i ∈ declinesOf (log ++ l)) ∧ (declinesOf (log ++ l)).Nodup))) := by
+  obtain ⟨w, hw, hi⟩ := poll_never_panics p apps h1 h2 hs pre
+  obtain ⟨w1, log, hr, hi1⟩ := runLog_total calls w hi
+  obtain ⟨w2, hw2, -, -⟩ := inv_step w1 a hi1
+  obtain ⟨l, hl⟩ := stepLog_of_step hw2
+  refine ⟨w, w1, log, w2, l, hw, hr, hl, ?_⟩
+  intro d hd hfirst hrun
+  refine ⟨no_double_decline calls w w1 log d hd hfirst hrun hr, ?_⟩
+  intro now phy arr ha hend
+  subst ha
+  exact visit_ends_fair calls w w1 w2 log l d now phy arr hd hfirst hrun hr hl hend
+
+
+/-! ### Non-vacuity of `no_double_decline` / `visit_ends_fair`: the witness visit of `order_eval` -/
+
+def continuesB (w : World) : Bool :=
+  match w.s.st with
+  | .useToken _ true | .awaitData .. => true
+  | _ => false
+
+theorem continues_of_b {w w' : World} {l : List AppCall} (h : continuesB w' = true) : Continues w w' l := by
+  unfold continuesB at h
+  cases hst : w'.s.st with
+  | useToken d fcd =>
+    cases fcd with
+    | true => exact .inl ⟨d, hst⟩
+    | false => rw [hst] at h; cases h
+  | awaitData a d => exact .inr (.inl ⟨a, d, hst⟩)
+  | offline => rw [hst] at h; cases h
+  | passiveIdle => rw [hst] at h; cases h
+  | listenToken a b => rw [hst] at h; cases h
+  | activeIdle a b c => rw [hst] at h; cases h
+  | claimToken a => rw [hst] at h; cases h
+  | passToken a b => rw [hst] at h; cases h
+  | checkTokenPass a => rw [hst] at h; cases h
+  | awaitStatus a => rw [hst] at h; cases h
+
+/-- First poll: hold continues (application 1 sent); second poll: ends in `AwaitStatusResponse` with
+callbacks, all three applications having declined once. -/
+def orderCheck : Bool :=
+  match orderWorld.stepLog (.poll 1000 false []) with
+  | some (w1, log) =>
+    (match w1.stepLog (.poll 100000 false []) with
+     | some (w2, l) => decide (w2.s.st = .awaitStatus 8) && decide (declinesOf (log ++ l) = [0, 1, 2]) &&
+         continuesB w1 && decide (l ≠ [])
+     | none => false)
+  | none => false
+
+set_option maxRecDepth 100000 in
+theorem orderCheck_true : orderCheck = true := by decide
+
+/-- The hypotheses of `visit_ends_fair` are satisfiable from a state satisfying the station invariant at
+the start of a visit: the hold continues over the first poll and is ended by the second one — far before
+the hold time is over, with three applications, without back-off — so the last disjunct applies: all
+three applications declined, each once (`declinesOf = [0, 1, 2]`). -/
+theorem visit_witness : ∃ w1 log w2 l, Inv orderWorld.s orderWorld.apps ∧
+    visitData orderWorld.s = some ⟨0, none⟩ ∧ HoldRun orderWorld [.poll 1000 false []] ∧
+    orderWorld.runLog [.poll 1000 false []] = some (w1, log) ∧ w1.stepLog (.poll 100000 false []) = some (w2, l) ∧
+    ¬ Continues w1 w2 l ∧ w2.s.st = .awaitStatus 8 ∧ declinesOf (log ++ l) = [0, 1, 2] := by
+  have hc := orderCheck_true
+  unfold orderCheck at hc
+  cases h1 : orderWorld.stepLog (.poll 1000 false []) with
+  | none => rw [h1] at hc; simp at hc
+  | some x =>
+    obtain ⟨w1, log⟩ := x
+    rw [h1] at hc
+    simp only at hc
+    cases h2 : w1.stepLog (.poll 100000 false []) with
+    | none => rw [h2] at hc; simp at hc
+    | some y =>
+      obtain ⟨w2, l⟩ := y
+      rw [h2] at hc
+      simp only [Bool.and_eq_true, decide_eq_true_eq] at hc
+      obtain ⟨⟨⟨hst, hdl⟩, hcb⟩, hne⟩ := hc
+      refine ⟨w1, log, w2, l, order_inv, rfl, ?_, ?_, h2, ?_, hst, hdl⟩
+      · refine ⟨⟨_, _, _, rfl⟩, ?_⟩
+        intro w1' l' h'
+        rw [h1] at h'; cases h'
+        exact ⟨continues_of_b hcb, trivial⟩
+      · simp only [World.runLog, h1, List.append_nil]
+      · rintro (⟨d, h⟩ | ⟨a, d, h⟩ | ⟨-, h⟩)
+        · rw [hst] at h; cases h
+        · rw [hst] at h; cases h
+        · exact hne h
+
+example : ∃ (w1 w2 : World) (log l : List AppCall),
+    (∀ i, i < 3 → i ∈ declinesOf (log ++ l)) ∧ (declinesOf (log ++ l)).Nodup := by
+  obtain ⟨w1, log, w2, l, -, hd, hrun, hr, hs, hend, hst, hdl⟩ := visit_witness
+  refine ⟨w1, w2, log, l, ?_⟩
+  rcases visit_ends_fair _ orderWorld w1 w2 log l ⟨0, none⟩ 100000 false [] hd rfl hrun hr hs hend with h | h | h | h
+  · rw [hst] at h; cases h
+  · rw [hdl]; decide
+  · cases h
+  · exact h
+
+
+/-! ## Scheduling order over whole histories (`ask_order_history`)
+
+Helper lemmas: `Lemmas/AppFrame.lean` (`poll_keep`: no handler but the application loop moves
+`next_application` — except the station reset; `walkR`, `turn_run`).  The station reset
+(`*self = Self::new(..)`) happens in `set_offline` AND inside a poll, in the duplicate-address detection
+of `do_listen_token`; it puts the turn back to application 0.  Hence the rule for the complete callback
+log of ANY history carries the alternative "or application 0". -/
+
+/-- **`ask_order`** (whole histories).  For every parameter set, every set of applications and EVERY
+sequence of `poll` / `set_online` / `set_offline` calls from a fresh station: the run does not panic, the
+first callback goes to application 0, and for any two adjacent callbacks `r1, r2` of the complete log —
+however many polls, token visits, lost tokens, ring re-entries lie between them — `r2` goes to the
+application whose turn it is after `r1` (`(i+1) % n` after a decline of `i`; `i` itself after a telegram
+sent by / a reply or time-out delivered to `i`), or to application 0 (station reset in between). -/
+theorem ask_order_history (p : Params) (apps : Apps) (h1 : p.address < p.hsa) (h2 : p.hsa ≤ 126)
+    (hs : ScriptsOk apps) (calls : List ApiCall) :
+    ∃ w log, World.runLog { s := Station.new p, apps := apps, rx := [] } calls = some (w, log) ∧
+      (∀ r post, log = r :: post → r.app = 0) ∧
+      (∀ pre r1 r2 post, log = pre ++ r1 :: r2 :: post → r2.app = nextIdx apps.length r1 ∨ r2.app = 0) := by
+  obtain ⟨w, log, hr, -⟩ := runLog_total calls { s := Station.new p, apps := apps, rx := [] } (inv_init p apps h1 h2 hs)
+  obtain ⟨ha1, ha2⟩ := walkR_adjacent _ log _ _ (turn_run calls _ w log hr).1
+  refine ⟨w, log, hr, ?_, ha2⟩
+  intro r post he
+  rcases ha1 r post he with h | h <;> exact h
+
+/-- The same for an arbitrary start state, conditional on the run being regular; with the turn at the end. -/
+theorem ask_order_history' (calls : List ApiCall) (w w' : World) (log : List AppCall)
+    (hr : w.runLog calls = some (w', log)) :
+    walkR w.apps.length w.s.nextApp log w'.s.nextApp ∧
+    (∀ pre r1 r2 post, log = pre ++ r1 :: r2 :: post → r2.app = nextIdx w.apps.length r1 ∨ r2.app = 0) :=
+  ⟨(turn_run calls w w' log hr).1, (walkR_adjacent _ log _ _ (turn_run calls w w' log hr).1).2⟩
+
+/-- Non-vacuity of `ask_order_history`: the witness visit continued by `set_offline`, going online again
+and a poll; five callbacks, adjacent ones obey the rule. -/
+example : ∃ w, World.runLog orderWorld (orderCalls ++ [.setOffline, .setOnline, .poll 200000 false []]) = some (w, orderLog) ∧
+    w.s.nextApp = 0 := by
+  have : (match World.runLog orderWorld (orderCalls ++ [.setOffline, .setOnline, .poll 200000 false []]) with
+      | some (w, log) => (log, w.s.nextApp)
+      | none => ([], 99)) = (orderLog, 0) := by
+    set_option maxRecDepth 100000 in decide
+  cases hr : World.runLog orderWorld (orderCalls ++ [.setOffline, .setOnline, .poll 200000 false []]) with
+  | none => rw [hr] at this; simp at this
+  | some x =>
+    obtain ⟨w, log⟩ := x
+    rw [hr] at this
+    simp only [Prod.mk.injEq] at this
+    exact ⟨w, by rw [this.1], this.2⟩
 
 end PV.C15
